@@ -26,7 +26,9 @@ META = {
                   "that secret' is observed as login success decoding under the harness's own AES/CFB8 keyed with "
                   "the secret the client sent. Key-signature logins (1.19-1.19.2 player keys) are not exercised. "
                   "After a failed authentication the spec does not require the close (the statement requires "
-                  "closing only for out-of-order or repeated packets).",
+                  "closing only for out-of-order or repeated packets). Every login is paused (verif gate point, "
+                  "delay only) between the session server's answer and its use, and each run ends with a burst "
+                  "of concurrent complete online logins, so that answers of different logins are in flight together.",
     "technique": "TLA+ history machine, TLC exhaustive history export, live-rig replay with real RSA/session flow, "
                  "TLC trace validation",
 }
@@ -62,6 +64,18 @@ def run(ctx):
         else:
             rnd.shuffle(hists)
             hists = hists[:12000]
+        # a burst of concurrent complete online logins (the harness pauses every login between the
+        # session server's answer and its use, so the answers of different logins are in flight
+        # together): each is judged like any other history
+        def complete_online(h):
+            return ([x["k"] for x in h["h"]] == ["start", "enc"] and h["h"][0].get("name") == "v"
+                    and h["h"][1].get("tok") == "exact" and h["h"][1].get("sec") == "ok"
+                    and h["sess"] in ("ok", "okany")
+                    and (h["pre"] == "forceOnline" or (cfg_online and h["pre"] == "allow")))
+        burst = [h for h in hists if complete_online(h)]
+        if not burst:
+            raise vlib.ToolError("no complete online login among the exported histories")
+        hists = hists + [burst[i % len(burst)] for i in range(ctx.pick(72, 480))]
         nhist += len(hists)
         ctx.log("Login.tla (online=%s): %d states, replaying %d histories" % (cfg_online, r.distinct, len(hists)))
         with open(ctx.path("hist.json"), "w") as fh:
